@@ -562,6 +562,20 @@ def cmp_c17_code(acc, V, src, fileid, crec, co):
                          expected=texc[:6], observed=oexc[:6])
     except Exception as e:
         acc.mismatch("C17|%s|exception-table-raises:%s" % (src, type(e).__name__), v=vs(V), file=fileid, path=crec["path"])
+    # the same entries as the Bytecode class hands them out (its own version gate decides whether the table is parsed at all)
+    if n <= 4000:
+        try:
+            from xdis.bytecode import Bytecode
+            from xdis.disasm import get_opcode
+
+            ents = Bytecode(co, get_opcode(V, False)).exception_entries
+            acc.count("c17_Bytecode_exception_entries")
+            bexc = None if ents is None else [(e.start, e.end, e.target, e.depth, bool(e.lasti)) for e in ents]
+            if bexc != texc:
+                acc.mismatch("C17|%s|Bytecode.exception_entries" % src, v=vs(V), file=fileid, path=crec["path"],
+                             expected=texc[:6], observed=None if bexc is None else bexc[:6])
+        except Exception as e:
+            acc.mismatch("C17|%s|Bytecode.exception_entries-raises:%s" % (src, type(e).__name__), v=vs(V), file=fileid, path=crec["path"])
     # co_lines as code-unit -> line map
     if hasattr(co, "co_lines") and crec.get("colines") is not None:
         try:
@@ -739,19 +753,24 @@ def cmd_diff(args):
                         cmp_c02_code(acc, V, src, fileid, crec, xco, opc, header, insts)
                     if "C03" in props:
                         cmp_c03_code(acc, V, src, fileid, crec, xco, opc, insts)
+                    if props & {"C02", "C03"} and path != walked[0][0] and crec["ncode"] <= 1500:
                         # second entry point: ONE Bytecode object per file (built from the module's code), asked for the
-                        # instructions of each nested code object - must resolve operands against the object it is given
-                        if path != walked[0][0] and crec["ncode"] <= 1500:
-                            try:
-                                if shared_bc.get(fileid) is None:
-                                    shared_bc.clear()
-                                    shared_bc[fileid] = Bytecode(walked[0][1], opc, dup_lines=False)
-                                insts2 = list(shared_bc[fileid].get_instructions(xco))
-                                acc.count("c03_shared_Bytecode_get_instructions")
+                        # instructions of each nested code object - it must decode, and resolve operands against, the object
+                        # it is given
+                        p0 = "C02" if "C02" in props else "C03"
+                        try:
+                            if shared_bc.get(fileid) is None:
+                                shared_bc.clear()
+                                shared_bc[fileid] = Bytecode(walked[0][1], opc, dup_lines=False)
+                            insts2 = list(shared_bc[fileid].get_instructions(xco))
+                            acc.count("shared_Bytecode_get_instructions_calls")
+                            if "C02" in props:
+                                cmp_c02_code(acc, V, src + "+shared-Bytecode.get_instructions", fileid, crec, xco, opc, header, insts2)
+                            if "C03" in props:
                                 cmp_c03_code(acc, V, src + "+shared-Bytecode.get_instructions", fileid, crec, xco, opc, insts2)
-                            except Exception as e:
-                                acc.mismatch("C03|%s|shared-Bytecode.get_instructions-raises:%s" % (src, type(e).__name__), v=vs(V),
-                                             file=fileid, path=path, msg=str(e)[:200])
+                        except Exception as e:
+                            acc.mismatch("%s|%s|shared-Bytecode.get_instructions-raises:%s" % (p0, src, type(e).__name__), v=vs(V),
+                                         file=fileid, path=path, msg=str(e)[:200])
                     if "C04" in props:
                         cmp_c04_code(acc, V, src, fileid, crec, xco, opc, insts)
                     if "C05" in props:
@@ -1005,6 +1024,16 @@ def cmd_tables(args):
                 out["get_opcode_module"][k] = get_opcode_module(vt + (0, "final"), variant).__name__
             except Exception as e:
                 out["get_opcode_module"][k] = "raises:" + type(e).__name__
+    # a micro release the tables do not list (3.12.99): must fall back to the table of its major.minor
+    for vt, pypy in sorted(pairs):
+        if pypy:
+            continue
+        for micro in (99, 10):
+            k = "%d.%d/micro%d" % (vt[0], vt[1], micro)
+            try:
+                out["get_opcode_module"][k] = get_opcode_module(vt + (micro, "final", 0), None).__name__
+            except Exception as e:
+                out["get_opcode_module"][k] = "raises:" + type(e).__name__
     # the float form of a version (deprecated but accepted: 3.8, 2.7 ...); minor numbers above 9 have no float form
     for vt, pypy in sorted(pairs):
         if vt[1] > 9 or pypy:
@@ -1052,6 +1081,20 @@ def cmd_stackeffect(args):
     from xdis.std import make_std_api
 
     acc = Acc()
+    # hostile order: the PyPy table of every version is queried first (same version tuple, other entries) - an answer
+    # remembered per version must not leak into the CPython table's answers
+    for pv in ((2, 7), (3, 5), (3, 6), (3, 7), (3, 8), (3, 9), (3, 10)):
+        try:
+            popc = get_opcode(pv, True)
+        except Exception:
+            continue
+        for op in range(256):
+            for a in (0, 1, 2, 3, 7, 255, 256):
+                try:
+                    xstack_effect(op, popc, a)
+                except Exception:
+                    pass
+        acc.count("c15_pypy_tables_queried_first")
     for tf in args["truth_files"]:
         with open(tf) as f:
             t = json.loads(f.readline())
@@ -1540,6 +1583,15 @@ def cmd_roundtrip(args):
                     acc.mismatch("C16|h%s|replace|field-not-set" % H, file=src, path=path)
                 if p.co_name != c.co_name or p.co_firstlineno != c.co_firstlineno or tuple(p.co_consts) != tuple(c.co_consts):
                     acc.mismatch("C16|h%s|replace|original-altered" % H, file=src, path=path)
+                # the changed copy converted back (p itself has been converted before: nothing remembered from that
+                # conversion may travel with the copy), and the original converted again afterwards
+                qn = q.to_native()
+                acc.count("c16_replace_then_to_native")
+                if qn.co_name != c.co_name + "_x" or qn.co_firstlineno != c.co_firstlineno + 7:
+                    acc.mismatch("C16|h%s|replace|to_native-of-copy-shows-original" % H, file=src, path=path,
+                                 co_name=qn.co_name, co_firstlineno=qn.co_firstlineno)
+                if p.to_native() != c:
+                    acc.mismatch("C16|h%s|replace|second-to_native-of-original-differs" % H, file=src, path=path)
             except Exception as e:
                 acc.mismatch("C16|h%s|replace-raises:%s" % (H, type(e).__name__), file=src, path=path, msg=str(e)[:200])
             for fl in ContractStats.failures[before:]:
@@ -2496,6 +2548,21 @@ def cmd_hostile(args):
                         raise
                     outcome = "escape"
                     err = (type(e).__name__, raise_site(sys.exc_info()[2], REPO), str(e)[:120])
+                # the header-only form of the same call (it skips some of the checks the full form makes first)
+                err2 = None
+                if outcome in ("tuple", "ImportError", "escape"):
+                    try:
+                        r2 = load_module(case_path, get_code=False)
+                        if not (isinstance(r2, tuple) and len(r2) == 7):
+                            err2 = ("other-return", type(r2).__name__, "")
+                    except ImportError:
+                        pass
+                    except (StepBudget, CaseWatchdog):
+                        pass
+                    except BaseException as e:
+                        if isinstance(e, KeyboardInterrupt):
+                            raise
+                        err2 = (type(e).__name__, raise_site(sys.exc_info()[2], REPO), str(e)[:120])
             finally:
                 _signal.setitimer(_signal.ITIMER_REAL, 0)
                 obs.active = False
@@ -2504,7 +2571,7 @@ def cmd_hostile(args):
                 peak = tracemalloc.get_traced_memory()[1]
                 tracemalloc.stop()
             after = set(os.listdir(workdir))
-            return {"outcome": outcome, "err": err, "peak": peak, "steps": obs.steps, "events": [list(e) for e in obs.events],
+            return {"outcome": outcome, "err": err, "err2": err2, "peak": peak, "steps": obs.steps, "events": [list(e) for e in obs.events],
                     "new": sorted(after - before)[:5], "gone": sorted(before - after)[:5]}
 
         if native_case or risky_case:
@@ -2532,6 +2599,10 @@ def cmd_hostile(args):
         if label != "valid" and sha(data) not in valid_digests:
             acc.distinct.add(sha(data))
         wit = {"class": label, "size": len(data), "hex_head": C.hexs(data[:48])}
+        acc.count("c11_header_only_calls")
+        if rr.get("err2"):
+            e2 = rr["err2"]
+            acc.mismatch("C11|escape:%s@%s|get_code=False" % (e2[0], e2[1]), msg=e2[2], **wit)
         if outcome == "escape":
             acc.mismatch("C11|escape:%s@%s" % (err[0], err[1]), msg=err[2], **wit)
         elif outcome.startswith("other-return"):
